@@ -225,8 +225,10 @@ func c08Sync(p vbase.Params, r *vbase.Result) {
 						g, _ := c.W.M(sender).Auth.Sign((tv + 1<<16).ToBytes())
 						tm.ViewSignature = g
 					}
-				case kind == 8 && agg: // message signature of another replica / over another message
-					if rng.Bool() {
+				case kind == 8 && agg: // message signature absent / of another replica / over another message
+					if rng.Chance(1, 3) {
+						tm.MsgSignature = nil // a valid view signature alone is not a timeout message under the aggregate rule
+					} else if rng.Bool() {
 						other := hotstuff.ID(2 + (int(sender)-2+1)%(nn-1))
 						o := c.honestTimeout(other, tv, si, agg)
 						tm.MsgSignature = o.MsgSignature
